@@ -1147,6 +1147,13 @@ impl<T: TraceStorage> ChainProcess<T> {
                 }
 
                 let draws = settings.hint_num_tune() + settings.hint_num_draws();
+                if draws == 0 {
+                    // Nothing to sample. The loop below compares the counter with
+                    // `draws` only after a draw was recorded, so without this check
+                    // a chain with `num_tune + num_draws == 0` would draw, step past
+                    // the total and keep drawing until the sampler is aborted.
+                    return Ok(());
+                }
 
                 let mut msg = stop_marker_rx.try_recv();
                 let mut draw = 0;
